@@ -28,6 +28,28 @@ DEC = "src/decoder.rs"
 KEYS = "src/keys.rs"
 TABLE_FN = "decoder::basic_events_nfa"
 
+CLAIM = {
+    "text": "Table and layout clauses of C04 decided from the facts of the current tree, every row / bit / state enumerated: (T1) the folded key table of "
+            "basic_events_nfa maps no byte string to two keys and agrees with the xterm / VT220 / rxvt / fixterms reference on every shared byte string "
+            "(CSI n ~, CSI/SS3 letters, C0 and ESC-prefixed legacy keys), incl. the modifier parameter m -> KeyMod::from_bits(m-1) and the bit values of "
+            "KeyMod's constants; every key it names is reachable through a reference sequence; (T2) DecMode/DecModeStatus::from_usize list every enumerator, "
+            "compare the discriminant and return the matching element, discriminants = DEC mode numbers / DECRPM status values; (T3) CUBE/GREYS = xterm "
+            "levels, COLORS in ECMA-48 order, SGR 30-37/40-47/90-97/100-107 index COLORS correctly (all codes 0..255, first-match semantics), all 256 "
+            "indices of 38;5;n; (T4) kitty functional keys 27/13/9/127, 57376..=57398 -> F13..F35, the private-use block is never a text key, modifier "
+            "field = from_bits(value-1) with kitty's bit values; (T5) SGR mouse: bit provenance of modifiers/button/wheel and the complete table over the "
+            "used button-value bits x final M/m (name, modifiers, press flag, col-1, row-1), UTF-8 bit assembly = RFC 3629 for the byte classes the grammars "
+            "admit; (T6) in the tagged union of the as-built event grammars only key-table (legacy ESC-prefix) accepting states can be extended, so a complete "
+            "parsed report is never merged with what follows; (T7) the cursor / mouse / DECRPM / text-area report grammars equal their documented forms, the "
+            "payload slice is exactly the numbers, and the n-th number reaches the documented field (row before col, column;row for the mouse, height before "
+            "width, mode then status). NOT decided: value-level copying of numeric fields for every value (number_decode, the iterator plumbing, overflow), "
+            "the payloads of OSC colour / termcap / kitty image / device attribute / bracketed paste reports, wheel direction naming (library-defined), and the "
+            "decoder loop that concatenates events (C03).",
+    "technique": "folded key table and grammars (sa.grammar) against hand-written reference tables, MIR def-chasing (enum lists, discriminant comparison, order of "
+                 "Iterator::next calls), bit provenance (sa.bitflow), exhaustive denotational evaluation of small source functions (sa.consteval), DFA queries "
+                 "(tagged union, extendable accepting states, language equivalence)",
+    "design_ref": "DESIGN.md §5 C04, §3, §4",
+}
+
 RFC3629 = {
     "citation": "RFC 3629 section 3, table 'Char. number range | UTF-8 octet sequence': 0xxxxxxx; 110xxxxx 10xxxxxx; 1110xxxx 10xxxxxx 10xxxxxx; "
                 "11110xxx 10xxxxxx 10xxxxxx 10xxxxxx — the x bits, most significant first, are the bits of the character number",
@@ -255,7 +277,7 @@ def t1(ctx, it, consts):
     ctx.rule("T1-FUNCTION", "key table of basic_events_nfa: every byte string denotes one key (a duplicate would be shadowed silently by tag order)", floor=367)
     ctx.rule("T1-XTERM", "key table agrees with refs/xterm_keys.json on every shared byte string: key name and modifiers (parameter m -> bits m-1)", floor=367)
     ctx.rule("T1-COVER", "every (key, modifiers) the table names is decoded from at least one byte string the reference gives for it", floor=299)
-    ctx.rule("T1-KEYMOD", "KeyMod constants carry the xterm modifier bit values, from_bits keeps them, (KeyName, KeyMod) -> Key keeps the pair order", floor=13)
+    ctx.rule("T1-KEYMOD", "KeyMod constants carry the xterm modifier bit values, from_bits keeps them, (KeyName, KeyMod) -> Key keeps the pair order", floor=14)
     g = grammar.extract(src).get("BasicEventsMatcher")
     if g is None or g.kind != "table" or g.table is None:
         ctx.anchor("T1-FUNCTION", "basic_events_nfa-table", "the key table could not be folded: %s" % (g.problem if g else "no BasicEventsMatcher"))
@@ -286,7 +308,8 @@ def t1(ctx, it, consts):
             ctx.violation("T1-KEYMOD", "keys::KeyMod::from_bits", "value-%d" % k, "KeyMod::from_bits(%d) has bits %d: shift/alt/ctrl of a modifier parameter are not kept" % (k, got), sites=[KEYS])
     conv_ok = {}
     for trait, arg, want in (("From<KeyName>", ("KeyName", "probe"), (("KeyName", "probe"), 0)),
-                             ("From<(KeyName,KeyMod)>", (("KeyName", "probe"), StructV("KeyMod", {"bits": 5})), (("KeyName", "probe"), 5))):
+                             ("From<(KeyName,KeyMod)>", (("KeyName", "probe"), StructV("KeyMod", {"bits": 6})), (("KeyName", "probe"), 6)),
+                             ("From<(KeyName,KeyMod)>", (("KeyName", "probe"), StructV("KeyMod", {"bits": 257})), (("KeyName", "probe"), 257))):
         cands = [(f, item) for (f, s, tr, item, t) in src.fns if not t and s == "Key" and item["name"] == "from" and tr is not None and tr.replace(" ", "") == trait]
         got = None
         try:
@@ -1085,7 +1108,9 @@ def t5_utf8(ctx):
                     env[code] = bf.provenance({"k": "bin", "op": e["op"][:-1], "l": e["l"], "r": e["r"], "line": e.get("line", 0)}, env, 32)
                 cur = env[code]
         except bf.BitflowError as ex:
-            ctx.anchor("T5-UTF8", where + "/bits-%d" % L, "bit assembly for length %d not understood: %s" % (L, ex))
+            ctx.instance("T5-UTF8", {"length": L, "ok": False, "problem": str(ex)})
+            ctx.violation("T5-UTF8", where, "layout-%d" % L,
+                          "%d-byte sequence: the code is not assembled as a pure bit layout of the input bytes (%s); RFC 3629: lead keeps %d bits, each continuation byte 6, shifted by 6" % (L, ex, exp_lead), sites=site)
             continue
         want = []
         for i in range(L - 1, 0, -1):
